@@ -2,7 +2,7 @@ import re
 import tracemalloc
 import linecache
 
-complement = str.maketrans("ACGT", "TGCA")
+complement = str.maketrans("ACGTacgt", "TGCAtgca")
 tag_regex = r"^[A-Za-z][A-Za-z][:][AifZHB][:][ !-~]*$"
 
 types_regex = {
